@@ -1,6 +1,7 @@
 """Generic FIX Order single module."""
 import re
 from datetime import datetime
+from decimal import Decimal
 from math import isfinite, nan
 
 from asyncfix import FIXMessage, FMsg, FTag
@@ -9,6 +10,17 @@ from asyncfix.errors import FIXError
 from .common import FExecType, FOrdSide, FOrdStatus, FOrdType
 
 RE_CLORD_ROOT = re.compile(r"^(.+)--(\d+)$", re.MULTILINE)
+
+
+def fix_float(value) -> str:
+    """Text of a number in the FIX float layout (plain decimal notation).
+
+    str() switches to exponent notation below 1e-4 and from 1e16 (1e-05, 1e+16).
+    """
+    text = str(value)
+    if "e" in text or "E" in text:
+        text = format(Decimal(text), "f")
+    return text
 
 
 class FIXNewOrderSingle:
@@ -152,7 +164,7 @@ class FIXNewOrderSingle:
 
         cxl_req_msg = FIXMessage(FMsg.ORDERCANCELREQUEST)
         cxl_req_msg[11] = self.clord_id
-        cxl_req_msg[38] = self.qty
+        cxl_req_msg[38] = fix_float(self.qty)
         cxl_req_msg[41] = self.orig_clord_id
         self.set_instrument(cxl_req_msg)
         cxl_req_msg[FTag.Side] = self.side
@@ -234,8 +246,8 @@ class FIXNewOrderSingle:
             price: new order price (unformatted / unrounded)
             qty: new order qty (unformatted / unrounded)
         """
-        ord_msg[FTag.Price] = price
-        ord_msg[FTag.OrderQty] = qty
+        ord_msg[FTag.Price] = fix_float(price)
+        ord_msg[FTag.OrderQty] = fix_float(qty)
 
     @staticmethod
     def change_status(
